@@ -238,6 +238,9 @@ Not decided: that the parsed list equals the source list, hoisted inner names fo
     // "nothing is added": COMPONENTS OF takes the root components of the referenced type and only those, at the position of the
     // notation (the analysis lives with C09.splice)
     borrow(ctx, "C09", "C09.splice", "C02.splice", &mut |sub| crate::rules::c09::run(m, sub));
+    // "whose Rust type corresponds to the component's ASN.1 type", "nothing is added": the hoisted type of an anonymous
+    // component / alternative is defined and referred to under one spelling (= C01.inner)
+    crate::rules::c01::inner_names(m, ctx, "C02.inner");
     // a component that a traversal of the linker does not reach keeps its unexpanded notation, and the components it stands
     // for are missing from the generated item (= C09.traverse / C09.detect)
     // a SET / SEQUENCE with components is generated — wherever its extension marker stands (= C01.emptyset)
